@@ -2,6 +2,7 @@ package rules
 
 import (
 	"fmt"
+	"go/token"
 	"go/types"
 	"strings"
 
@@ -22,18 +23,19 @@ var c17Exceptions = map[string]string{
 
 func runC17(c *Ctx) {
 	R := c.R
-	R.Rule("C17.R1", "names are lower-cased on entry: in every exported builder taking string / ...string names, every flow from such a parameter into a map key, a stored field or a slice element passes through strings.ToLower")
+	R.Rule("C17.R1", "names are lower-cased on entry: in every exported builder taking string / ...string names, every flow from such a parameter into a map key, a stored field or a slice element passes through strings.ToLower and through no other transformation (keys must be what the tokenizer delivers)")
 	R.Rule("C17.R2", "rule tables are append-only: every update of a rule table (element/pattern/global attribute and style rules, scheme-regexp and bare-pattern lists, custom URL policies) stores append(<the same table's entry for the same key>, x), an inner map made only when the entry was absent, an empty rule list made only when absent, or struct{}{} for set-like tables; no delete on rule tables")
 	R.Rule("C17.R3", "switch-like options reflect their most recent setting: each boolean/func setter stores its parameter unconditionally; AllowURLSchemes stores the unrestricted entry for every scheme unconditionally; AllowElementsContent deletes unconditionally; RequireSandboxOnIFrame installs a fresh set")
 	R.Rule("C17.R4", "instances are independent: only freshly made maps/slices (or append results on the policy's own field) are stored into a policy's table fields; shipped constructors return a new NewPolicy(); no package-level cache (C13.R3)")
-	R.Rule("C17.R5", "order independence follows from R2 + any-match reads (C07.R1) + order-insensitive map iteration (C13.R4): stated, not separately checked")
+	R.Rule("C17.R5", "rules accumulate at sanitise time too: where the rules of several matching element patterns are merged into the per-call table, each update is m[k] = append(m[k], rules...); with that, order independence follows from R2 + any-match reads (C07.R1) + order-insensitive map iteration (C13.R4)")
 	R.Assume(TrustGo, TrustTokenizer, "equality of the outputs of two concrete policies is a run-time relation and follows from R1–R4 only under the tokenizer contract")
 	F := model.FindFields(c.P)
 	c17Lower(c, F)
 	c17AppendOnly(c, F)
 	c17Setters(c, F)
 	c17Fresh(c, F)
-	R.OK("C17.R5", "ref", "order independence", "", "consequence of C17.R2, C07.R1 and C13.R4")
+	mergesAccumulate(c, "C17.R5")
+	R.OK("C17.R5", "ref", "order independence", "", "consequence of C17.R2, C17.R5 merges, C07.R1 and C13.R4")
 }
 
 func isStringish(t types.Type) bool {
@@ -46,7 +48,10 @@ func isStringish(t types.Type) bool {
 	return false
 }
 
-func c17Lower(c *Ctx, F *model.Fields) {
+func c17Lower(c *Ctx, F *model.Fields) { namesLowered(c, "C17.R1", nil, 9) }
+
+// namesLowered checks the flow of name parameters into tables for the exported builders (all, or those in only).
+func namesLowered(c *Ctx, rule string, only map[string]bool, min int) {
 	R := c.R
 	n := 0
 	for _, fn := range moduleFuncs(c.P) {
@@ -63,71 +68,103 @@ func c17Lower(c *Ctx, F *model.Fields) {
 			continue
 		}
 		name := shortFn(fn)
+		if only != nil && !only[name] {
+			continue
+		}
 		if why, ok := c17Exceptions[name]; ok {
-			R.OK("C17.R1", name, name, c.P.Pos(fn.Pos()), "listed exception: "+why)
+			R.OK(rule, name, name, c.P.Pos(fn.Pos()), "listed exception: "+why)
 			continue
 		}
 		n++
-		// raw(v): v derives from a name parameter without passing strings.ToLower
+		// class(v): how v derives from a name parameter — 0 not at all, 1 through exactly strings.ToLower, 2 unchanged
+		// (raw), 3 through some other transformation (the sanitiser looks names up as the tokenizer delivers them:
+		// ASCII-lower-cased and otherwise verbatim, so any other normalisation makes the stored key unreachable)
 		memo := map[ssa.Value]int{}
-		var raw func(v ssa.Value) bool
-		raw = func(v ssa.Value) bool {
-			if m, ok := memo[v]; ok {
-				return m == 1
+		var class func(v ssa.Value) int
+		max := func(a, b int) int {
+			if a > b {
+				return a
 			}
-			memo[v] = 2
-			r := false
+			return b
+		}
+		class = func(v ssa.Value) int {
+			if m, ok := memo[v]; ok {
+				if m < 0 {
+					return 0
+				}
+				return m
+			}
+			memo[v] = -1
+			r := 0
 			switch x := v.(type) {
 			case *ssa.Parameter:
 				for _, p := range params {
 					if x == p {
-						r = true
+						r = 2
 					}
 				}
 			case *ssa.UnOp:
-				r = raw(x.X)
+				r = class(x.X)
 			case *ssa.IndexAddr:
-				r = raw(x.X)
+				r = class(x.X)
 			case *ssa.Index:
-				r = raw(x.X)
+				r = class(x.X)
 			case *ssa.Slice:
-				r = raw(x.X)
+				r = class(x.X)
 			case *ssa.Phi:
 				for _, e := range x.Edges {
-					if raw(e) {
-						r = true
-					}
+					r = max(r, class(e))
 				}
 			case *ssa.Call:
-				if cl := isCallTo(x, "strings.ToLower"); cl != nil {
-					r = false
-				} else if cal := x.Common().StaticCallee(); cal != nil && cal.Pkg != nil && (cal.Pkg.Pkg.Path() == "strings") {
-					for _, a := range x.Common().Args {
-						if raw(a) {
-							r = true
-						}
+				in := 0
+				for _, a := range x.Common().Args {
+					in = max(in, class(a))
+				}
+				switch {
+				case in == 0:
+					r = 0
+				case isCallTo(x, "strings.ToLower") != nil:
+					if in == 3 {
+						r = 3
+					} else {
+						r = 1
+					}
+				default:
+					if _, isBuiltin := x.Common().Value.(*ssa.Builtin); isBuiltin {
+						r = in // len, append: no transformation of the strings themselves
+					} else {
+						r = 3
 					}
 				}
 			case *ssa.BinOp:
-				r = raw(x.X) || raw(x.Y)
+				r = max(class(x.X), class(x.Y))
+				if r > 0 && x.Op == token.ADD {
+					r = 3
+				}
 			case *ssa.Alloc:
-				// a local holding a name: raw if any store into it is raw
 				for _, ref := range *x.Referrers() {
-					if st, ok := ref.(*ssa.Store); ok && st.Addr == ssa.Value(x) && raw(st.Val) {
-						r = true
+					if st, ok := ref.(*ssa.Store); ok && st.Addr == ssa.Value(x) {
+						r = max(r, class(st.Val))
 					}
 				}
 			}
-			if r {
-				memo[v] = 1
-			}
+			memo[v] = r
 			return r
 		}
+		raw := func(v ssa.Value) bool { return class(v) >= 2 }
+		altered := ""
+		noteAltered := func(v ssa.Value, where string) {
+			if class(v) == 3 {
+				altered = where
+			}
+		}
+		_ = noteAltered
 		bad := ""
 		for _, b := range fn.Blocks {
 			for _, in := range b.Instrs {
 				switch x := in.(type) {
 				case *ssa.MapUpdate:
+					noteAltered(x.Key, "a table key at "+c.P.Pos(x.Pos()))
 					if raw(x.Key) {
 						bad = "a table key at " + c.P.Pos(x.Pos())
 					}
@@ -158,9 +195,13 @@ func c17Lower(c *Ctx, F *model.Fields) {
 				}
 			}
 		}
-		R.Check(bad == "", "C17.R1", name, name+": flow of name parameters into tables", c.P.Pos(fn.Pos()), "every name reaches its sink through strings.ToLower", "a name parameter reaches "+bad+" without strings.ToLower: rules registered with upper-case names would never match the (lower-cased) input")
+		why := "a name parameter reaches " + bad + " without strings.ToLower: rules registered with upper-case names would never match the (lower-cased) input"
+		if altered != "" {
+			why = "a name parameter reaches " + altered + " through a transformation other than strings.ToLower: the sanitiser looks names up as the tokenizer delivers them, so a key normalised differently is never found"
+		}
+		R.Check(bad == "", rule, name, name+": flow of name parameters into tables", c.P.Pos(fn.Pos()), "every name reaches its sink through strings.ToLower and nothing else", why)
 	}
-	R.Role("C17.R1", "exported builders taking names", n, 9)
+	R.Role(rule, "exported builders taking names", n, min)
 }
 
 var ruleTables = []string{"elsAndAttrs", "elsMatchingAndAttrs", "globalAttrs", "elsAndStyles", "elsMatchingAndStyles", "globalStyles"}
